@@ -295,6 +295,11 @@ pub fn fault(thorough: bool, seed: u64) -> Vec<Program> {
         vec![Limit { lim: Some(2000) }, l(600, 1), l(600, 1), Reset, l(2000, 1)],
         vec![l(500, 1), Reset, l(500, 1), l(500, 1), Iter],
         vec![Fill { ty: 4, len: 100, how: 0, fallible: true }, Str { len: 700, fallible: true }, Allocate { size: 4000, align: 32, zeroed: true }],
+        // the fault strikes in the middle of the history: a full chunk, then an operation that needs a new one
+        vec![l(441, 1), Fault { kind: 4, k: 0 }, Shrink { b: usize::MAX, size: 1, align: 64 }, Grow { b: usize::MAX, size: 100, align: 1, zeroed: true }, Fault { kind: 0, k: 0 }, l(1, 1)],
+        vec![l(3, 1), l(437, 1), Fault { kind: 4, k: 0 }, Shrink { b: 0, size: 1, align: 16 }, Shrink { b: usize::MAX, size: 5, align: 32 }, l(100, 8), Fault { kind: 0, k: 0 }],
+        vec![l(441, 1), Limit { lim: Some(448) }, Shrink { b: usize::MAX, size: 1, align: 64 }, Grow { b: usize::MAX, size: 100, align: 2, zeroed: false }, TryWith { ty: 4, ety: 2, ok: false, clos: Clos::Keep(30), fallible: true }],
+        vec![l(445, 1), Fault { kind: 4, k: 0 }, TryWith { ty: 4, ety: 2, ok: true, clos: Clos::Nothing, fallible: true }, TryFill { ty: 4, len: 4, fail_at: -1, iter: false }, Val { ty: 9, with: true, fallible: true }, Fault { kind: 0, k: 0 }, Again],
     ];
     let starts = vec![New { cap: None, fallible: false }, New { cap: Some(300), fallible: true }];
     let mut out = Vec::new();
@@ -401,7 +406,7 @@ pub fn trywith(thorough: bool) -> Vec<Program> {
     use Op::*;
     let mut out = Vec::new();
     // (ty, ety): Result slot sizes 1(ZST), 16, ~2008, ~5008
-    let tys: Vec<(u8, u8)> = vec![(0, 0), (4, 2), (1, 2), (10, 2), (11, 3), (9, 5)];
+    let tys: Vec<(u8, u8)> = vec![(0, 0), (4, 2), (1, 2), (10, 2), (11, 3), (9, 5), (13, 2), (12, 0)];
     let closs = vec![Clos::Nothing, Clos::Keep(10), Clos::Release(10), Clos::Zst, Clos::Keep(600)];
     for &ma in &MAS {
         for (ti, &(ty, ety)) in tys.iter().enumerate() {
